@@ -9,6 +9,7 @@ synchronizedUpdate, disableMouse) × all four (cursorNext.visible, cursorLast.vi
 a proof over the whole finite configuration space, not a sample.  A mode enabled under one guard
 and reset under another makes the corresponding chunk fail to compile.
 -/
+import VaxisModel.Props.C07
 import VaxisModel.Lemmas.C04Chunk00
 import VaxisModel.Lemmas.C04Chunk01
 import VaxisModel.Lemmas.C04Chunk02
@@ -106,6 +107,79 @@ theorem decset_lexes :
     ∀ n ∈ [1, 25, 1002, 1003, 1004, 1006, 1049, 2004, 2026, 2027, 2031, 2048, 8452],
       toksOf (wBytes default (.decset n)) = [.decset n] ∧ toksOf (wBytes default (.decrst n)) = [.decrst n] := by
   decide +kernel
+
+/-! ### Frames do not touch the lifecycle state -/
+
+section frames
+open VaxisModel.Model.Render VaxisModel.Lemmas.RenderGate VaxisModel.Spec
+
+/-- The part of the terminal that start-up establishes and only shutdown may change. -/
+def core (t : MTerm) : List (Nat × Bool) × Bool × Nat × Bool × String :=
+  (t.modes, t.alt, t.kitty, t.keypadApp, t.appId)
+
+private theorem step_core (t : MTerm) (caps : Caps) (k : Tok) (h : allowedTok caps k = true)
+    (hk : ∀ r, k ≠ Tok.other r) : core (ModeTerm.step t k) = core t := by
+  cases k with
+  | other r => exact absurd rfl (hk r)
+  | decset n =>
+    simp only [allowedTok, Bool.or_eq_true, beq_iff_eq, Bool.and_eq_true] at h
+    rcases h with h | ⟨h, _⟩ <;> subst h <;> simp [ModeTerm.step, decMode, core] <;> (try split) <;> simp
+  | decrst n =>
+    simp only [allowedTok, Bool.or_eq_true, beq_iff_eq, Bool.and_eq_true] at h
+    rcases h with h | ⟨h, _⟩ <;> subst h <;> simp [ModeTerm.step, decMode, core] <;> (try split) <;> simp
+  | _ => simp [ModeTerm.step, core]
+
+/-- **Frames never change a mode, the screen selector, the kitty keyboard stack, the keypad mode or
+    the application id** — whatever is drawn, under every capability set. So the state that
+    `balanced` / `resume_reestablishes` start from is the one start-up established, after any
+    number of frames. -/
+theorem frame_keeps_core (cw : String → Nat) (f : Frame) (t : MTerm) :
+    core (ModeTerm.run t (renderFrame cw f).2) = core t := by
+  have hall := C07.render_gated cw f
+  have hno : ∀ k ∈ (renderFrame cw f).2, ∀ r, k ≠ Tok.other r := by
+    intro k hk r hr
+    -- `other` tokens are never produced, for any capability set
+    subst hr
+    obtain ⟨pre, extra, close, show_, hb, hpre, hvoc, hclose, _, hs⟩ := Lemmas.RenderToks.renderBody_shape cw f
+    have hbody : ∀ k' ∈ (renderBody cw f).2, ∀ r', k' ≠ Tok.other r' := by
+      intro k' hk' r' hr'
+      rw [hb] at hk'
+      simp only [List.mem_append] at hk'
+      rcases hk' with ((hk' | hk') | hk') | hk'
+      · rcases hpre with h0 | ⟨s, h0⟩ <;> subst h0 <;> simp at hk'
+        subst hk'; cases hr'
+      · have := hvoc k' hk'; subst hr'; exact this
+      · rcases hclose with h0 | h0 <;> subst h0 <;> simp at hk'
+        subst hk'; cases hr'
+      · subst hs; split at hk'
+        · simp [showCursorToks] at hk'; rcases hk' with rfl | rfl | rfl <;> cases hr'
+        · simp at hk'
+    unfold renderFrame flush at hk
+    simp only at hk
+    split at hk
+    · repeat' split at hk
+      all_goals simp [showCursorToks] at hk
+    · simp only [List.mem_append, List.mem_singleton] at hk
+      rcases hk with ((((hk | hk) | hk) | hk) | hk) | hk
+      · split at hk <;> simp at hk
+      · split at hk <;> simp at hk
+      · exact hbody _ hk r rfl
+      · cases hk
+      · split at hk
+        · simp [showCursorToks] at hk
+        · simp at hk
+      · split at hk <;> simp at hk
+  generalize (renderFrame cw f).2 = toks at hall hno
+  induction toks generalizing t with
+  | nil => rfl
+  | cons k ks ih =>
+    simp only [ModeTerm.run, List.foldl_cons]
+    have h1 := step_core t f.caps k (hall k (by simp)) (hno k (by simp))
+    have h2 := ih (ModeTerm.step t k) (fun k' hk' => hall k' (by simp [hk'])) (fun k' hk' => hno k' (by simp [hk']))
+    simp only [ModeTerm.run] at h2
+    rw [h2, h1]
+
+end frames
 
 -- Non-vacuity: assignment 0x1ff (everything advertised, mouse disabled) really enables things.
 example : (run (t0Of (envOf 255)) (startupW (envOf 255)).wire).kitty = 1 := by decide +kernel
